@@ -151,7 +151,7 @@ def cases(ctx):
     r = ctx['rng']
     quick = ctx['tier'] == 'quick'
     out = [('witness', w) for w in WITNESSES] + probes()
-    nbase = 25 if quick else 1500
+    nbase = 25 if quick else 600
     for _ in range(nbase):
         kind = r.choice(['clean'] * 8 + planted.MISTAKES + ['warn'] * 6)
         stmts = planted.warn_case(r) if kind == 'warn' else planted.plant(r, kind)[0]
@@ -170,7 +170,7 @@ def cases(ctx):
     small = gen.trees_upto(3, leaves)
     four = gen.trees(4, leaves)
     r.shuffle(four)
-    for t in small + four[: (120 if quick else 4000)]:
+    for t in small + four[: (120 if quick else 1500)]:
         out.append(('small-tree', gen.show_grammar([('call', 'cmd', t)]).encode('latin-1')))
     return out
 
@@ -277,7 +277,7 @@ def end_to_end(ctx, res, cs):
     r = ctx['rng']
     texts = [t for k, t in cs if not k.startswith('probe') and all(32 <= c < 127 or c in (9, 10, 12, 13) for c in t)]
     r.shuffle(texts)
-    texts = texts[: (150 if ctx['tier'] == 'quick' else 6000)]
+    texts = texts[: (150 if ctx['tier'] == 'quick' else 3000)]
     shells = [r.choice(SHELLS) for _ in texts]
     dumps = impl.dump(exe, texts, ['parse', 'check', 'regex', 'raw', 'min', 'amb'], SHELLS)
     reqs = ['compile %s 200000 %s' % (sh, sexp.quote(t.decode('latin-1'))) for t, sh in zip(texts, shells)]
